@@ -799,6 +799,62 @@ fn directed(a: &Args, o: &Shared, r: &mut Rng) {
     }
 }
 
+/// a callback whose send can be made to fail (the model assumes an infallible callback; these
+/// scenarios are judged by the statement of C20 alone: "a peer is gone after it was disconnected")
+struct FailCb { fail: bool, sent: Vec<(u8, Vec<u8>)>, k: u8 }
+impl NetCallback<Addr> for FailCb {
+    type Error = &'static str;
+    fn secure_random(&mut self, buffer: &mut [u8]) { self.k = self.k.wrapping_add(17); for b in buffer { *b = self.k | 1; } }
+    fn send(&mut self, addr: Addr, data: &[u8]) -> Result<(), &'static str> {
+        if self.fail { return Err("network unreachable"); }
+        self.sent.push((addr.0, data.to_vec()));
+        Ok(())
+    }
+    fn time(&mut self) -> Timestamp { Timestamp::from_usecs_since_epoch(0) }
+}
+
+fn failing_send_scenarios(o: &Shared) {
+    fn connect(net: &mut Net<Addr>, cb: &mut FailCb, addr: Addr, pkt: &[u8]) -> Option<PeerId> {
+        let mut buf = [0u8; protocol::MAX_PACKETSIZE];
+        let (ev, res) = net.feed(cb, &mut libtw2_warn::Ignore, addr, pkt, &mut buf[..]);
+        let mut pid = None;
+        for e in ev { if let ChunkOrEvent::Connect(p) = e { pid = Some(p); } }
+        let _ = res;
+        pid
+    }
+    for (name, token, reject) in [("disconnect", true, false), ("disconnect-notoken", false, false), ("reject", true, true), ("reject-notoken", false, true)] {
+        let id = format!("failing-send-{}", name);
+        let r = guard(|| {
+            let pkt: &[u8] = if token { CONNECT_PACKET } else { CONNECT_PACKET_NO_TOKEN };
+            let mut cb = FailCb { fail: false, sent: vec![], k: 3 };
+            let mut net: Net<Addr> = Net::server();
+            let (a1, a2) = (Addr(1), Addr(2));
+            let p1 = connect(&mut net, &mut cb, a1, pkt).ok_or("no Connect event for address 1")?;
+            let p2 = connect(&mut net, &mut cb, a2, pkt).ok_or("no Connect event for address 2")?;
+            if !reject { net.accept(&mut cb, p1).map_err(|_| "accept failed")?; }
+            net.accept(&mut cb, p2).map_err(|_| "accept failed")?;
+            cb.fail = true;
+            let res = if reject { net.reject(&mut cb, p1, b"no") } else { net.disconnect(&mut cb, p1, b"bye") };
+            cb.fail = false;
+            if res.is_ok() { return Err("the failing send was not reported"); }
+            // gone: a connect request from the same address is announced as a fresh pending peer
+            let p1b = connect(&mut net, &mut cb, a1, pkt).ok_or("after the disconnect a connect request from the same address creates no pending peer: the peer is not gone")?;
+            if p1b == p1 || p1b == p2 { return Err("the new pending peer reuses a live peer id"); }
+            cb.sent.clear();
+            net.accept(&mut cb, p1b).map_err(|_| "accept of the new peer failed")?;
+            if cb.sent.len() != 1 || cb.sent[0].0 != 1 { return Err("accepting the new peer does not answer its address"); }
+            Ok::<(), &'static str>(())
+        });
+        let mut g = o.lock().unwrap();
+        g.tick("failing-send", &id);
+        match r {
+            Ok(Ok(())) => g.check(true, "-", &id, String::new),
+            Ok(Err(e)) => g.check(false, "-", &id, || format!("C20 {} with a failing send callback: {}", name, e)),
+            Err(p) => g.check(false, "-", &id, || format!("C20 {} with a failing send callback panicked: {}", name, p)),
+        }
+    }
+}
+
 fn main() {
     let a = Args::parse();
     let o: Shared = Arc::new(Mutex::new(Out::new(&a, "labelled histories over one real Net endpoint and 2-4 remote addresses (real Connections as traffic sources; loss, duplication, reordering, garbage, mutations, cross-address replays), application calls and ticks, accepting and non-accepting; every label compared with the Coq model and with independent per-address Connections (isolation oracle). distinct = distinct (operation, accepting?, peer state before > after, result, #datagrams, #events, #warnings) signatures")));
@@ -828,6 +884,7 @@ fn main() {
     let th = a.thorough();
     let mut r = Rng::new(a.seed ^ 0xc20);
     directed(&a, &o, &mut r);
+    failing_send_scenarios(&o);
     let modes: Vec<String> = if a.extra.is_empty() { vec!["server".into(), "client".into(), "mixed".into(), "hostile".into(), "invalid".into()] } else { a.extra[0].split(',').map(|s| s.to_string()).collect() };
     let mut tn = 0;
     for mode in &modes {
